@@ -43,7 +43,7 @@ DIALECTS = {
     "named_excel_tab": {"dialect": "excel-tab"},
 }
 ENCODINGS = [None, "utf-8", "utf-16", "latin-1"]
-STRINGS = ["x", "x", "y", "a,b", 'q"q', "x\ny", "x\r\ny", "x\ry", "é", "ü;ö", "a;b", "a\tb", "a|b", "it's", "back\\slash", " lead", "trail ", "", "日本", "‑dash", "x" * 9000, "a\x0bb", "a\x0cb\x1c", "a\x85b", "a\u2028b\u2029", "__none", "_none_", '"lead']
+STRINGS = ["x", "x", "y", "a,b", 'q"q', "x\ny", "x\r\ny", "x\ry", "é", "ü;ö", "a;b", "a\tb", "a|b", "it's", "back\\slash", " lead", "trail ", "", "日本", "‑dash", "x" * 9000, "a\x0bb", "a\x0cb\x1c", "a\x85b", "a\u2028b\u2029", "__none", "_none_", '"lead', "f_3", "_field_x", "t_y", "_tag_z"]
 LATIN1 = [s for s in STRINGS if all(ord(c) < 256 for c in s)]
 
 
@@ -76,6 +76,7 @@ def cases(draw, max_ops):
         st.tuples(st.just("insert"), pts, st.integers(0, 3), st.booleans(), st.sampled_from(["db", "db_meas", "handle"]), st.booleans()).map(list),
         st.tuples(st.just("insert_multiple"), st.lists(pts, max_size=4), st.integers(0, 3), st.sampled_from(["inorder", "asis"]), st.just("db"), st.none(), st.just("m1")).map(list),
         gen_ops.op_remove_hit(), gen_ops.op_remove_hit(), gen_ops.op_update_hit(), gen_ops.op_update_hit(), gen_ops.op_update(), gen_ops.op_remove(),
+        st.tuples(st.just("insert_reuse"), pts, st.booleans()).map(list),
         gen_ops.op_drop(), gen_ops.op_remove_all(), gen_ops.op_reindex(), gen_ops.op_reopen(), gen_ops.op_reopen(),
         gen_ops.op_probe_hit(), gen_ops.op_probe_hit(), gen_ops.op_probe(), gen_ops.op_getters(),
     )
